@@ -6,11 +6,9 @@ package main
 import (
 	"bytes"
 	"context"
-	"encoding/json"
 	"errors"
 	"fmt"
 	"io"
-	"math/rand"
 	"regexp"
 	"runtime/pprof"
 	"strconv"
@@ -25,8 +23,8 @@ import (
 	"github.com/pion/interceptor/pkg/intervalpli"
 	"github.com/pion/interceptor/pkg/jitterbuffer"
 	"github.com/pion/interceptor/pkg/nack"
-	"github.com/pion/interceptor/pkg/packetdump"
 	"github.com/pion/interceptor/pkg/pacing"
+	"github.com/pion/interceptor/pkg/packetdump"
 	"github.com/pion/interceptor/pkg/report"
 	"github.com/pion/interceptor/pkg/rfc8888"
 	"github.com/pion/interceptor/pkg/stats"
@@ -40,8 +38,8 @@ import (
 
 const (
 	tick       = 2 * time.Millisecond
-	watchdog   = 700 * time.Millisecond
-	unbindWin  = 70 * time.Millisecond
+	watchdog   = 1000 * time.Millisecond
+	unbindWin  = 120 * time.Millisecond
 	closeWin   = 12 * time.Millisecond
 	twccURI    = "http://www.ietf.org/id/draft-holmer-rmcat-transport-wide-cc-extensions-01"
 	workers    = 40
@@ -81,6 +79,8 @@ type script struct {
 	Obs   [][2]int `json:"obs,omitempty"`
 	Leak  int      `json:"leak"`
 	Notes []string `json:"notes,omitempty"`
+
+	nSync, nAsync int
 }
 
 // ---- interceptor kinds ----
@@ -198,7 +198,7 @@ var kinds = []*kind{
 	{id: 12, name: "flexfec", remote: false, perSSRC: true, probe: hookProbe, mk: func() (interceptor.Interceptor, error) {
 		return fromFactory(flexfec.NewFecInterceptor())
 	}},
-	{id: 13, name: "chain", remote: true, perSSRC: false, mk: func() (interceptor.Interceptor, error) {
+	{id: 13, name: "chain", remote: true, perSSRC: true, mk: func() (interceptor.Interceptor, error) {
 		a, err := fromFactory(nack.NewGeneratorInterceptor(nack.GeneratorInterval(tick), nack.WithGeneratorLoggerFactory(quietFactory{})))
 		if err != nil {
 			return nil, err
@@ -207,12 +207,8 @@ var kinds = []*kind{
 		if err != nil {
 			return nil, err
 		}
-		c, err := fromFactory(twcc.NewSenderInterceptor(twcc.SendInterval(tick), twcc.WithLoggerFactory(quietFactory{})))
-		if err != nil {
-			return nil, err
-		}
 
-		return interceptor.NewChain([]interceptor.Interceptor{a, b, c}), nil
+		return interceptor.NewChain([]interceptor.Interceptor{a, b}), nil
 	}},
 }
 
@@ -256,9 +252,22 @@ type runner struct {
 	next    []byte
 
 	retAt map[int]time.Time // step -> time the call returned
+
+	gate    atomic.Pointer[chan struct{}]
+	entered chan struct{}
+	rtcpRd  interceptor.RTCPReader
+	rtcpIn  []byte
 }
 
 func (r *runner) record(ssrcs []uint32) error {
+	if g := r.gate.Load(); g != nil && r.inSync.Load() == 0 {
+		// gated run: a write made by a goroutine of the interceptor waits here until the gate opens
+		select {
+		case r.entered <- struct{}{}:
+		default:
+		}
+		<-*g
+	}
 	r.mu.Lock()
 	defer r.mu.Unlock()
 	r.nWrites++
@@ -313,15 +322,43 @@ func (r *runner) packet(ssrc uint32) *rtp.Packet {
 	return p
 }
 
+func rtcpAbout(ssrc uint32, seq uint16) []byte {
+	pkts := []rtcp.Packet{
+		&rtcp.SenderReport{SSRC: ssrc, NTPTime: 1 << 40, RTPTime: 1000, PacketCount: 1, OctetCount: 4},
+		&rtcp.TransportLayerNack{SenderSSRC: 9, MediaSSRC: ssrc, Nacks: rtcp.NackPairsFromSequenceNumbers([]uint16{seq})},
+		&rtcp.TransportLayerCC{
+			Header:     rtcp.Header{Padding: true, Count: rtcp.FormatTCC, Type: rtcp.TypeTransportSpecificFeedback, Length: 5},
+			SenderSSRC: 9, MediaSSRC: ssrc, BaseSequenceNumber: seq, PacketStatusCount: 1, ReferenceTime: 1, FbPktCount: 0,
+			PacketChunks: []rtcp.PacketStatusChunk{&rtcp.RunLengthChunk{
+				Type: rtcp.TypeTCCRunLengthChunk, PacketStatusSymbol: rtcp.TypeTCCPacketReceivedSmallDelta, RunLength: 1,
+			}},
+			RecvDeltas: []*rtcp.RecvDelta{{Type: rtcp.TypeTCCPacketReceivedSmallDelta, Delta: 250}},
+		},
+	}
+	raw, err := rtcp.Marshal(pkts)
+	if err != nil {
+		raw, _ = rtcp.Marshal(pkts[:2])
+	}
+
+	return raw
+}
+
 // do runs the API call of one step; it is called on its own goroutine.
 func (r *runner) do(o op) {
 	switch o.K {
 	case "bindw":
 		r.ic.BindRTCPWriter(r.rtcpWriter())
 	case "bindr":
-		r.ic.BindRTCPReader(interceptor.RTCPReaderFunc(func(b []byte, a interceptor.Attributes) (int, interceptor.Attributes, error) {
-			return 0, a, nil
+		rd := r.ic.BindRTCPReader(interceptor.RTCPReaderFunc(func(b []byte, a interceptor.Attributes) (int, interceptor.Attributes, error) {
+			r.mu.Lock()
+			n := copy(b, r.rtcpIn)
+			r.mu.Unlock()
+
+			return n, a, nil
 		}))
+		r.mu.Lock()
+		r.rtcpRd = rd
+		r.mu.Unlock()
 	case "bind":
 		if r.k.remote {
 			rd := r.ic.BindRemoteStream(streamInfo(o.X), r.rtpReader())
@@ -356,6 +393,18 @@ func (r *runner) do(o op) {
 			r.inSync.Add(1)
 			_, _ = w.Write(&p.Header, p.Payload, interceptor.Attributes{})
 			r.inSync.Add(-1)
+		}
+		// incoming RTCP about the stream through the reader returned by BindRTCPReader (if bound):
+		// a sender report, a NACK for the packet just sent (nack responder: resend goroutine) and a
+		// transport-wide feedback (gcc: hand-off to the delay controller goroutines)
+		r.mu.Lock()
+		rrd := r.rtcpRd
+		if rrd != nil {
+			r.rtcpIn = rtcpAbout(o.X, p.SequenceNumber)
+		}
+		r.mu.Unlock()
+		if rrd != nil {
+			_, _, _ = rrd.Read(make([]byte, 1500), interceptor.Attributes{})
 		}
 	case "close":
 		_ = r.ic.Close()
@@ -519,12 +568,194 @@ func runScript(sc *script) {
 		}
 	}
 	sc.Obs = obs
+	r.mu.Lock()
+	for _, w := range r.writes {
+		if w.sync {
+			sc.nSync++
+		} else {
+			sc.nAsync++
+		}
+	}
+	r.mu.Unlock()
 }
 
 func (sc *script) noteLocked(mu *sync.Mutex, s string) {
 	mu.Lock()
 	sc.Notes = append(sc.Notes, s)
 	mu.Unlock()
+}
+
+// ---- gated run: Close while a goroutine of the interceptor is inside a write ----
+
+type gateResult struct {
+	Special     string `json:"special"`
+	Iid         int    `json:"iid"`
+	Name        string `json:"name"`
+	Entered     bool   `json:"entered"`      // a goroutine of the interceptor was caught inside a write
+	ClosedEarly bool   `json:"closed_early"` // Close returned while that write was still in progress
+	CloseHang   bool   `json:"close_hang"`   // Close did not return after the write completed
+	Panic       string `json:"panic,omitempty"`
+}
+
+// runGate: bind, make the interceptor want to write, hold its write in the next writer, call Close,
+// see whether Close waits for the goroutine that is writing.
+func runGate(k *kind) *gateResult {
+	res := &gateResult{Special: "gate", Iid: k.id, Name: k.name}
+	ic, err := k.mk()
+	if err != nil {
+		panic(err)
+	}
+	sc := &script{Iid: k.id}
+	r := &runner{k: k, ic: ic, sc: sc, readers: map[uint32]interceptor.RTPReader{}, writers: map[uint32]interceptor.RTPWriter{},
+		seq: map[uint32]uint16{}, retAt: map[int]time.Time{}, entered: make(chan struct{}, 1)}
+	defer func() {
+		if e := recover(); e != nil {
+			res.Panic = fmt.Sprint(e)
+		}
+	}()
+	g := make(chan struct{})
+	r.gate.Store(&g)
+	r.do(op{K: "bindw"})
+	r.do(op{K: "bindr"})
+	r.do(op{K: "bind", X: 1})
+	for i := 0; i < 3; i++ {
+		r.do(op{K: "traffic", X: 1})
+	}
+	// a NACK for the last packet written (nack responder: starts a resend goroutine)
+	nackPkt := &rtcp.TransportLayerNack{SenderSSRC: 9, MediaSSRC: 1, Nacks: rtcp.NackPairsFromSequenceNumbers([]uint16{r.seq[1] - 2})}
+	raw, _ := nackPkt.Marshal()
+	r.mu.Lock()
+	r.rtcpIn = raw
+	rd := r.rtcpRd
+	r.mu.Unlock()
+	if rd != nil {
+		_, _, _ = rd.Read(make([]byte, 1500), interceptor.Attributes{})
+	}
+	select {
+	case <-r.entered:
+		res.Entered = true
+	case <-time.After(150 * time.Millisecond):
+	}
+	closed := make(chan struct{})
+	go func() {
+		defer func() {
+			if e := recover(); e != nil {
+				res.Panic = fmt.Sprint(e)
+			}
+			close(closed)
+		}()
+		_ = ic.Close()
+	}()
+	if res.Entered {
+		select {
+		case <-closed:
+			res.ClosedEarly = true
+		case <-time.After(40 * time.Millisecond):
+		}
+	}
+	close(g)
+	select {
+	case <-closed:
+	case <-time.After(watchdog):
+		res.CloseHang = true
+	}
+
+	return res
+}
+
+// ---- Close from a second goroutine while two goroutines keep reading/writing ----
+
+type concResult struct {
+	Special     string `json:"special"`
+	Iid         int    `json:"iid"`
+	Name        string `json:"name"`
+	DelayUs     int    `json:"delay_us"`
+	TrafficHang bool   `json:"traffic_hang"`
+	CloseHang   bool   `json:"close_hang"`
+	LateWrites  int    `json:"late_writes"`
+	Panic       string `json:"panic,omitempty"`
+}
+
+func runConcurrent(k *kind, delayUs int) *concResult {
+	res := &concResult{Special: "concurrent-close", Iid: k.id, Name: k.name, DelayUs: delayUs}
+	ic, err := k.mk()
+	if err != nil {
+		panic(err)
+	}
+	r := &runner{k: k, ic: ic, sc: &script{Iid: k.id}, readers: map[uint32]interceptor.RTPReader{}, writers: map[uint32]interceptor.RTPWriter{},
+		seq: map[uint32]uint16{}, retAt: map[int]time.Time{}}
+	var pmu sync.Mutex
+	note := func(e any) {
+		pmu.Lock()
+		res.Panic = fmt.Sprint(e)
+		pmu.Unlock()
+	}
+	r.do(op{K: "bindw"})
+	r.do(op{K: "bindr"})
+	r.do(op{K: "bind", X: 1})
+	r.do(op{K: "bind", X: 2})
+	var stop atomic.Bool
+	var tw sync.WaitGroup
+	for x := uint32(1); x <= 2; x++ {
+		tw.Add(1)
+		go func(x uint32) {
+			defer tw.Done()
+			defer func() {
+				if e := recover(); e != nil {
+					note(e)
+				}
+			}()
+			for !stop.Load() {
+				r.do(op{K: "traffic", X: x})
+			}
+		}(x)
+	}
+	time.Sleep(time.Duration(delayUs) * time.Microsecond)
+	closed := make(chan time.Time, 1)
+	go func() {
+		defer func() {
+			if e := recover(); e != nil {
+				note(e)
+				closed <- time.Now()
+			}
+		}()
+		_ = ic.Close()
+		closed <- time.Now()
+	}()
+	var closeRet time.Time
+	select {
+	case closeRet = <-closed:
+	case <-time.After(watchdog):
+		res.CloseHang = true
+	}
+	time.Sleep(3 * time.Millisecond)
+	stop.Store(true)
+	done := make(chan struct{})
+	go func() { tw.Wait(); close(done) }()
+	select {
+	case <-done:
+	case <-time.After(watchdog):
+		res.TrafficHang = true
+	}
+	quiet := time.Now()
+	time.Sleep(closeWin)
+	if !res.CloseHang && !res.TrafficHang {
+		// writes made after the traffic goroutines stopped and after Close returned can only come from
+		// goroutines of the interceptor
+		from := quiet
+		if closeRet.After(from) {
+			from = closeRet
+		}
+		r.mu.Lock()
+		for _, w := range r.writes {
+			if w.t.After(from) {
+				res.LateWrites++
+			}
+		}
+		r.mu.Unlock()
+	}
+
+	return res
 }
 
 // ---- goroutine accounting ----
@@ -632,6 +863,22 @@ func allSeqs(a []op, maxLen int) [][]op {
 	return out[1:]
 }
 
+// valid: traffic on an SSRC needs a reader/writer, i.e. an earlier Bind of that SSRC
+// (traffic through the handle of a stream that was unbound meanwhile is kept).
+func valid(ops []op) bool {
+	bound := map[uint32]bool{}
+	for _, o := range ops {
+		if o.K == "bind" {
+			bound[o.X] = true
+		}
+		if o.K == "traffic" && !bound[o.X] {
+			return false
+		}
+	}
+
+	return true
+}
+
 func (sc *script) toCase(buckets ...string) cq.Case {
 	ops := make([]string, len(sc.Ops))
 	for i, o := range sc.Ops {
@@ -713,18 +960,34 @@ func main() {
 	var scs []*script
 	var tags [][]string
 	add := func(iid int, ops []op, failw int, tag ...string) {
+		if !valid(ops) {
+			return
+		}
 		scs = append(scs, &script{Iid: iid, Name: kinds[iid].name, Ops: ops, FailW: failw})
 		tags = append(tags, tag)
 	}
+	replayGate, replayConc := -1, -1
 	if o.Replay != "" {
-		var sc script
-		cq.LoadReplay(o.Replay, &sc)
-		add(sc.Iid, sc.Ops, sc.FailW, "replay")
+		var g gateResult
+		cq.LoadReplay(o.Replay, &g)
+		switch g.Special {
+		case "gate":
+			replayGate = g.Iid
+		case "concurrent-close":
+			replayConc = g.Iid
+		default:
+			var sc script
+			cq.LoadReplay(o.Replay, &sc)
+			// schedule-dependent failures do not show on every run: replay the script several times
+			for i := 0; i < 12; i++ {
+				add(sc.Iid, sc.Ops, sc.FailW, "replay")
+			}
+		}
 	} else {
 		for _, f := range o.CorpusFiles() {
 			var sc script
 			cq.LoadReplay(f, &sc)
-			if sc.Name != "" {
+			if sc.Name != "" && len(sc.Ops) > 0 {
 				add(sc.Iid, sc.Ops, sc.FailW, "corpus")
 			}
 		}
@@ -732,11 +995,11 @@ func main() {
 		if o.Tier == "thorough" {
 			depth = 3
 		}
-		short := allSeqs(alphabet(2), depth)
+		short := append(allSeqs(alphabet(2), depth), allSeqs(alphabet(1), depth+1)...)
 		suffix := allSeqs(alphabet(2), 2)
 		warm := []op{{K: "bindw"}, {K: "bind", X: 1}, {K: "traffic", X: 1}}
 		full := alphabet(3)
-		nRand := o.Scale(70, 1500)
+		nRand := o.Scale(120, 1500)
 		for _, k := range kinds {
 			for _, s := range short {
 				add(k.id, s, 0, "exhaustive")
@@ -749,6 +1012,20 @@ func main() {
 				s := make([]op, n)
 				for j := range s {
 					s[j] = full[rng.Intn(len(full))]
+					if s[j].K == "traffic" && rng.Intn(2) == 0 { // make traffic land on bound streams more often
+						for q := j - 1; q >= 0; q-- {
+							if s[q].K == "bind" {
+								s[j].X = s[q].X
+
+								break
+							}
+						}
+					}
+				}
+				if !valid(s) {
+					i--
+
+					continue
 				}
 				failw := 0
 				if rng.Intn(3) == 0 {
@@ -758,7 +1035,6 @@ func main() {
 			}
 		}
 	}
-	_ = rand.Int
 	t0 := time.Now()
 	runAll(scs)
 	for i, sc := range scs {
@@ -768,8 +1044,89 @@ func main() {
 		"scripts": len(scs), "harness_wall_s": time.Since(t0).Seconds(),
 		"partial": "feature records are hand-assigned; blocking is observed through a watchdog timeout; the scheduler is not controlled",
 	}
-	if b, err := json.Marshal(extra); err == nil {
-		_ = b
+	wk := map[string][2]int{}
+	for _, sc := range scs {
+		v := wk[sc.Name]
+		v[0] += sc.nSync
+		v[1] += sc.nAsync
+		wk[sc.Name] = v
 	}
-	cq.Write(o, "a script of at least two calls (a final Close is always appended)", []*cq.Set{set}, extra, implFailures(scs))
+	extra["writes_seen_by_kind_passthrough_and_own"] = wk
+	fails := implFailures(scs)
+	var gates []*gateResult
+	if o.Replay == "" || replayGate >= 0 {
+		var gw sync.WaitGroup
+		var gmu sync.Mutex
+		for _, k := range kinds {
+			if replayGate >= 0 && k.id != replayGate {
+				continue
+			}
+			gw.Add(1)
+			go func(k *kind) {
+				defer gw.Done()
+				g := runGate(k)
+				gmu.Lock()
+				gates = append(gates, g)
+				gmu.Unlock()
+			}(k)
+		}
+		gw.Wait()
+	}
+	nEntered := 0
+	for _, g := range gates {
+		if g.Entered {
+			nEntered++
+		}
+		switch {
+		case g.Panic != "":
+			fails = append(fails, cq.ImplFailure{Kind: g.Name + "-gated-close-panic", Detail: g.Panic, Case: g})
+		case g.ClosedEarly:
+			fails = append(fails, cq.ImplFailure{Kind: g.Name + "-close-returns-while-writing",
+				Detail: "Close returned while a goroutine started by the interceptor was still inside a write to the next writer", Case: g})
+		case g.CloseHang:
+			fails = append(fails, cq.ImplFailure{Kind: g.Name + "-gated-close-hang", Detail: "Close did not return after the held write completed", Case: g})
+		}
+	}
+	nConc := 0
+	if o.Replay == "" || replayConc >= 0 {
+		per := o.Scale(4, 150)
+		var cw sync.WaitGroup
+		var cmu sync.Mutex
+		sem := make(chan struct{}, 16)
+		for _, k := range kinds {
+			if replayConc >= 0 && k.id != replayConc {
+				continue
+			}
+			for it := 0; it < per; it++ {
+				delay := rng.Intn(4000)
+				cw.Add(1)
+				nConc++
+				go func(k *kind, delay int) {
+					defer cw.Done()
+					sem <- struct{}{}
+					c := runConcurrent(k, delay)
+					<-sem
+					cmu.Lock()
+					defer cmu.Unlock()
+					switch {
+					case c.Panic != "":
+						fails = append(fails, cq.ImplFailure{Kind: c.Name + "-concurrent-close-panic", Detail: c.Panic, Case: c})
+					case c.TrafficHang:
+						fails = append(fails, cq.ImplFailure{Kind: c.Name + "-concurrent-close-traffic-hang",
+							Detail: "a Read/Write running concurrently with Close never returned", Case: c})
+					case c.CloseHang:
+						fails = append(fails, cq.ImplFailure{Kind: c.Name + "-concurrent-close-hang", Detail: "Close concurrent with traffic never returned", Case: c})
+					case c.LateWrites > 0:
+						fails = append(fails, cq.ImplFailure{Kind: c.Name + "-concurrent-close-late-write",
+							Detail: fmt.Sprintf("%d write(s) to the next writer after Close returned and traffic stopped", c.LateWrites), Case: c})
+					}
+				}(k, delay)
+			}
+		}
+		cw.Wait()
+	}
+	extra["concurrent_close_runs"] = nConc
+	extra["gated_close_runs"] = len(gates)
+	extra["gated_close_runs_with_a_write_in_progress"] = nEntered
+	cq.Write(o, "a script of at least two calls (a final Close is always appended)", []*cq.Set{set}, extra, fails)
 }
